@@ -185,17 +185,24 @@ Definition F_node_name : text := [110; 111; 100; 101; 46; 110; 97; 109; 101]%Z. 
 
 (* templ.format(from_id=.., from_node=.., to_id=.., to_node=.., kind=kind):
    the node objects' reprs are not modelled (fail closed) *)
-Definition edge_env (i j : nat) (k : option text) (f : text) : option text :=
+Definition F_from_name : text := [102; 114; 111; 109; 95; 110; 111; 100; 101; 46; 110; 97; 109; 101]%Z.   (* from_node.name *)
+Definition F_to_name : text := [116; 111; 95; 110; 111; 100; 101; 46; 110; 97; 109; 101]%Z.              (* to_node.name *)
+
+(* [k]: the kind keyword (absent for a string edge_mapper: KeyError);
+   [fn], [tn]: names of the two nodes, for {from_node.name} / {to_node.name} *)
+Definition edge_env (i j : nat) (k fn tn : option text) (f : text) : option text :=
   if text_eqb f F_from_id then Some (dec i)
   else if text_eqb f F_to_id then Some (dec j)
   else if text_eqb f F_kind then k
+  else if text_eqb f F_from_name then fn
+  else if text_eqb f F_to_name then tn
   else None.
 
 Definition mer_edge_text (e : medge) : option text :=
   match e with
   | (Some i, Some j, l) =>
       format_with (match l with Some _ => MERMAID_DEFAULT_EDGE_TEMPLATE_TYPED | None => MERMAID_DEFAULT_EDGE_TEMPLATE end)
-                  (edge_env i j l)
+                  (edge_env i j l None None)
   | _ => None                                                              (* KeyError in id_to_idx *)
   end.
 
@@ -207,6 +214,93 @@ Definition mer_node_text (d : mnode) : option text :=
       option_map (fun v => dec i ++ [40; 34]%Z ++ v ++ [34; 41]%Z)
                  (format_with MERMAID_DEFAULT_NODE_TEMPLATE
                               (fun f => if text_eqb f F_node_name then Some nm else None))
+  end.
+
+(* ---- the whole chart, with the options of _node_to_mermaid_flowchart_iter ---- *)
+Inductive mtitle := TitleOff | TitleName | TitleText (t : text).   (* falsy | True | non-empty str *)
+Record mopts := MO {
+  mo_markdown : bool;
+  mo_direction : text;
+  mo_title : mtitle;
+  mo_headers : list text;
+  mo_add_root : bool;
+  mo_unique : bool;
+  mo_node_templ : option text;      (* node_mapper given as a str *)
+  mo_edge_templ : option text       (* edge_mapper given as a str *)
+}.
+
+Definition node_env (nm : text) (f : text) : option text :=
+  if text_eqb f F_node_name then Some nm else None.
+
+(* name = node_mapper(n); f'{idx}("{name}")' *)
+Definition mer_node_line (nt : option text) (d : mnode) : option text :=
+  match d with
+  | (i, nm, true) => Some (dec i ++ [123; 123; 34]%Z ++ nm ++ [34; 125; 125]%Z)
+  | (i, nm, false) =>
+      option_map (fun v => dec i ++ [40; 34]%Z ++ v ++ [34; 41]%Z)
+                 (format_with (match nt with Some t => t | None => MERMAID_DEFAULT_NODE_TEMPLATE end) (node_env nm))
+  end.
+
+(* edge_mapper(parent_idx, n._parent, idx, n) *)
+Definition mer_edge_line (et : option text) (u : bool) (m : list (gkey * nat)) (pn : rt * rt) : option text :=
+  match klookup (key u (fst pn)) m, klookup (key u (snd pn)) m with
+  | Some i, Some j =>
+      let fn := Some (rname (fst pn)) in
+      let tn := Some (rname (snd pn)) in
+      match et with
+      | Some t => format_with t (edge_env i j None fn tn)
+      | None =>
+          let k := mer_label (rkind (snd pn)) in
+          format_with (match k with Some _ => MERMAID_DEFAULT_EDGE_TEMPLATE_TYPED | None => MERMAID_DEFAULT_EDGE_TEMPLATE end)
+                      (edge_env i j k fn tn)
+      end
+  | _, _ => None
+  end.
+
+(* a generator that raises yields no chart *)
+Fixpoint oseq {X} (l : list (option X)) : option (list X) :=
+  match l with
+  | [] => Some []
+  | None :: _ => None
+  | Some x :: r => option_map (cons x) (oseq r)
+  end.
+
+Definition L_md_open : text := [96; 96; 96; 109; 101; 114; 109; 97; 105; 100]%Z.
+Definition L_md_close : text := [96; 96; 96]%Z.
+Definition L_dashes : text := [45; 45; 45]%Z.
+Definition L_title : text := [116; 105; 116; 108; 101; 58; 32]%Z.
+Definition L_generator : text :=
+  [37; 37; 32; 71; 101; 110; 101; 114; 97; 116; 111; 114; 58; 32; 104; 116; 116; 112; 115; 58; 47; 47; 103; 105; 116; 104; 117;
+   98; 46; 99; 111; 109; 47; 109; 97; 114; 49; 48; 47; 110; 117; 116; 114; 101; 101; 47]%Z.
+Definition L_flowchart : text := [102; 108; 111; 119; 99; 104; 97; 114; 116; 32]%Z.
+Definition L_headers : text := [37; 37; 32; 72; 101; 97; 100; 101; 114; 115; 58]%Z.
+Definition L_nodes : text := [37; 37; 32; 78; 111; 100; 101; 115; 58]%Z.
+Definition L_edges : text := [37; 37; 32; 69; 100; 103; 101; 115; 58]%Z.
+
+Definition mer_head (o : mopts) (s : rt) : list text :=
+  (if mo_markdown o then [L_md_open] else [])
+  ++ (match mo_title o with
+      | TitleOff => []
+      | TitleName => [L_dashes; L_title ++ rname s; L_dashes]
+      | TitleText t => [L_dashes; L_title ++ t; L_dashes]
+      end)
+  ++ [[]; L_generator; []; L_flowchart ++ mo_direction o]
+  ++ (match mo_headers o with [] => [] | h => [[]; L_headers] ++ h end)
+  ++ [[]; L_nodes].
+
+Definition mer_node_lines (o : mopts) (s : rt) : list (option text) :=
+  map (mer_node_line (mo_node_templ o)) (mer_nodes (mo_unique o) (mo_add_root o) s).
+
+Definition mer_edge_lines (o : mopts) (s : rt) : list (option text) :=
+  flat_map (fun pn => if negb (mo_add_root o) && same_node (fst pn) s then []
+                      else [mer_edge_line (mo_edge_templ o) (mo_unique o) (mer_map (mo_unique o) (mo_add_root o) s) pn])
+           (desc_p s).
+
+Definition mer_chart (o : mopts) (s : rt) : option (list text) :=
+  match oseq (mer_node_lines o s), oseq (mer_edge_lines o s) with
+  | Some ns, Some es =>
+      Some (mer_head o s ++ ns ++ [[]; L_edges] ++ es ++ (if mo_markdown o then [L_md_close] else []))
+  | _, _ => None
   end.
 
 (* the lines between "%% Nodes:" and the end of the chart *)
@@ -291,6 +385,9 @@ Definition sx_medge (e : medge) : sx :=
 Definition sx_mer (x : list mnode * list medge) : sx :=
   L [sx_list sx_mnode (fst x); sx_list sx_medge (snd x);
      sx_list sx_otext (fst (mer_text x)); sx_list sx_otext (snd (mer_text x))].
+
+Definition sx_chart (c : option (list text)) : sx :=
+  match c with Some ls => L (map sx_text ls) | None => A (-1)%Z end.
 
 Definition sx_rnode (g : rnode) : sx :=
   match g with RLit d => sx_did d | RSys => L [A 2%Z] end.
